@@ -270,6 +270,11 @@ class IndexView(Contract):
                     yield dict(fmt=[s, n, f], rule=rule, mode=mode, route=route)
                     if mode == 'saturate':
                         yield dict(fmt=[s, n, f], rule=rule, mode=mode, route=route, huge=True)
+        # an integer-typed array (built from ints, n_frac <= 0) receiving a float item: the item is quantized, not cast first
+        for (s, n, f) in [(True, 8, 0), (True, 8, -1), (False, 6, 0)]:
+            for rule, mode in [('around', 'saturate'), ('floor', 'wrap'), ('ceil', 'saturate')]:
+                for route in ('direct', 'tuple_index', 'set_val_index'):
+                    yield dict(fmt=[s, n, f], rule=rule, mode=mode, route=route, vint=True)
 
     def inputs(self, cfg, D):
         s, n, f = cfg['fmt']
@@ -280,8 +285,10 @@ class IndexView(Contract):
 
     def run(self, cfg, P, inp):
         s, n, f = cfg['fmt']
-        x = make_fxp(P, s, n, f, codes=inp['c'], shape=(2, 2), cfg={'rounding': cfg['rule'], 'overflow': cfg['mode']}, vdtype=float)
-        if cfg['route'] == 'chained':
+        x = make_fxp(P, s, n, f, codes=inp['c'], shape=(2, 2), cfg={'rounding': cfg['rule'], 'overflow': cfg['mode']}, vdtype=int if cfg.get('vint') else float)
+        if cfg['route'] == 'set_val_index':
+            x.set_val(inp['v'], index=(0, 1)); shares = True
+        elif cfg['route'] == 'chained':
             y = x[0]
             shares = shares_buffer(y.val, x.val)
             y[1] = inp['v']
